@@ -112,7 +112,15 @@ func allFunctions(prog *ssa.Program) map[*ssa.Function]bool {
 // verifyFunc builds the VC of one function against its contract.
 func (en *Engine) verifyFunc(fn *ssa.Function, ct *FuncContract, findings ...*Finding) *VC {
 	key := funcKey(fn)
-	vc := newVC(en.u, en.cs, key, en.fset)
+	vcName := key
+	if ta := fn.TypeArgs(); len(ta) > 0 {
+		var ns []string
+		for _, t := range ta {
+			ns = append(ns, typeKey(t))
+		}
+		vcName = key + "[" + strings.Join(ns, ",") + "]"
+	}
+	vc := newVC(en.u, en.cs, vcName, en.fset)
 	vc.declare("now0", "Int")
 	vc.assume("(> now0 0)")
 	h0 := &Heap{ver: map[string]string{}, now: "now0"}
@@ -137,6 +145,10 @@ func (en *Engine) verifyFunc(fn *ssa.Function, ct *FuncContract, findings ...*Fi
 	for _, rq := range en.activeClauses(ct.Requires, ct) {
 		vc.assume(ctx.evalBool(rq.E))
 	}
+	for _, rq := range en.activeClauses(ct.Presumes, ct) {
+		vc.assume(ctx.evalBool(rq.E))
+		vc.assumed = append(vc.assumed, "presumed precondition of "+key+" (not checked at call sites): "+rq.Src)
+	}
 	vc.topFrame = f
 	for _, fd := range findings {
 		if fd.Function == key {
@@ -159,8 +171,14 @@ func (en *Engine) verifyFunc(fn *ssa.Function, ct *FuncContract, findings ...*Fi
 		} else {
 			res.Tuple = r.vals
 		}
+		if r.block != nil {
+			vc.curBlk = r.block.Index
+		}
 		post := &SpecCtx{f: f, fn: fn, params: f.params, heap: r.heap, old: f.entry, binds: f.lets, result: &res, pkg: pkgOf(fn)}
-		conds := f.splitConds(r.block)
+		var conds []string
+		if !r.dup {
+			conds = f.splitConds(r.block)
+		}
 		for k, e := range en.activeClauses(ct.Ensures, ct) {
 			name := fmt.Sprintf("post.%s@return#%d", clauseName(e, k), ri+1)
 			goal := post.evalBool(e.E)
@@ -200,7 +218,7 @@ func (en *Engine) assumeGlobalAxioms(f *Frame, ctx *SpecCtx) {
 
 type axiomText struct{ name, text string }
 
-var sfSym = regexp.MustCompile(`\|sf [^|]+\|`)
+var sfSym = regexp.MustCompile(`sf_[^ ()]+`)
 
 // relevantAxioms selects contract-file axioms whose spec functions occur in the body.
 func (vc *VC) relevantAxioms(body string) string {
@@ -245,7 +263,16 @@ func (en *Engine) assemble(vc *VC, o *Oblig, wantModel bool) string {
 		b.WriteString("(set-option :produce-models true)\n")
 	}
 	b.WriteString("(set-logic ALL)\n")
-	body := strings.Join(vc.lines[:o.NLines], "\n") + "\n" + o.Goal
+	var bodyLines []string
+	for i, l := range vc.lines[:o.NLines] {
+		if vc.reach != nil && o.Blk >= 0 && i < len(vc.lineBlk) && vc.lineBlk[i] >= 0 && !strings.HasPrefix(l, "(declare-") {
+			if m := vc.reach[vc.lineBlk[i]]; m != nil && !m[o.Blk] {
+				continue
+			}
+		}
+		bodyLines = append(bodyLines, l)
+	}
+	body := strings.Join(bodyLines, "\n") + "\n" + o.Goal
 	b.WriteString(en.u.declarations())
 	axioms := vc.relevantAxioms(body)
 	pre, used := prelude(body + axioms)
@@ -255,12 +282,19 @@ func (en *Engine) assemble(vc *VC, o *Oblig, wantModel bool) string {
 	b.WriteString(pre)
 	// declarations must precede axioms that mention spec functions: split lines
 	var decls, rest []string
-	for _, l := range vc.lines[:o.NLines] {
+	for i, l := range vc.lines[:o.NLines] {
 		if strings.HasPrefix(l, "(declare-") {
 			decls = append(decls, l)
-		} else {
-			rest = append(rest, l)
+			continue
 		}
+		// control-flow slicing: facts emitted in blocks that cannot reach the obligation's block
+		// (other branches) are irrelevant and are left out
+		if vc.reach != nil && o.Blk >= 0 && i < len(vc.lineBlk) && vc.lineBlk[i] >= 0 {
+			if m := vc.reach[vc.lineBlk[i]]; m != nil && !m[o.Blk] {
+				continue
+			}
+		}
+		rest = append(rest, l)
 	}
 	b.WriteString(strings.Join(vc.specLines, "\n") + "\n")
 	b.WriteString(strings.Join(decls, "\n") + "\n")
